@@ -63,6 +63,7 @@ impl<'a> P<'a> {
                         _ => return Err("bad escape".into()),
                     }
                 }
+                c if (c as u32) < 0x20 => return Err("control character in string".into()),
                 c => out.push(c),
             }
         }
@@ -149,10 +150,58 @@ impl<'a> P<'a> {
                     return Err(format!("unexpected char at {st}"));
                 }
                 let lit: String = self.s[st..self.p].iter().collect();
+                if !json_number(&lit) {
+                    return Err(format!("bad number {lit}"));
+                }
                 Ok(json!({"j":"num","lit":cps_of(&lit)}))
             }
         }
     }
+}
+
+/// JSON number grammar: -? (0 | [1-9][0-9]*) (. [0-9]+)? ([eE] [+-]? [0-9]+)?
+fn json_number(s: &str) -> bool {
+    let b = s.as_bytes();
+    let mut i = 0;
+    if i < b.len() && b[i] == b'-' {
+        i += 1;
+    }
+    if i >= b.len() {
+        return false;
+    }
+    if b[i] == b'0' {
+        i += 1;
+    } else if b[i].is_ascii_digit() {
+        while i < b.len() && b[i].is_ascii_digit() {
+            i += 1;
+        }
+    } else {
+        return false;
+    }
+    if i < b.len() && b[i] == b'.' {
+        i += 1;
+        let st = i;
+        while i < b.len() && b[i].is_ascii_digit() {
+            i += 1;
+        }
+        if st == i {
+            return false;
+        }
+    }
+    if i < b.len() && (b[i] == b'e' || b[i] == b'E') {
+        i += 1;
+        if i < b.len() && (b[i] == b'+' || b[i] == b'-') {
+            i += 1;
+        }
+        let st = i;
+        while i < b.len() && b[i].is_ascii_digit() {
+            i += 1;
+        }
+        if st == i {
+            return false;
+        }
+    }
+    i == b.len()
 }
 
 pub fn parse(text: &str) -> Result<J, String> {
